@@ -71,6 +71,11 @@ def taskproc(task: Task) -> Result:
             and not any(isinstance(e, r) for r in raises)
         ):
             raise
+        # NOTE: captured: drop the traceback. Its frames hold task and result,
+        #   and result holds e: a reference cycle that keeps task.stop (a
+        #   manager proxy) alive until some later gc run, whose finalizer then
+        #   closes the connection that a newer task's proxy is using
+        e.__traceback__ = None
     finally:
         sys.setrecursionlimit(prev_limit)
         result.runtime = elapsed
